@@ -56,7 +56,9 @@ def make_config(case):
                 "features": ["x1", "x2"],
                 "aggregates": aggs,
                 "fixed_effect": fes,
-                "baseline_pointer": {"dem": "dem", "gop": "gop", "turnout": "turnout"},
+                # `ptr_alias`: estimands whose baseline lives in another column (baseline_<e>_prev) than the one named
+                # after them; the frame then also carries a decoy baseline_<e> column with different numbers
+                "baseline_pointer": {e: (e + "_prev" if e in case.get("ptr_alias", []) else e) for e in ("dem", "gop", "turnout")},
             }
         ]
     }
@@ -81,6 +83,10 @@ def make_frames(case):
     )
     if is_district_office(case["office"]):
         pre.insert(3, "district", [u["dist"] for u in units])
+    for e in case.get("ptr_alias", []):
+        col = "baseline_" + e
+        pre[col + "_prev"] = pre[col]
+        pre[col] = (np.round(pre[col].astype(float) * 1.7) + 13).astype(pre[col].dtype)
     rows = []
     nan_cells = []  # (row index, column): a feed row whose count for one estimand has not arrived yet
     for u in units:
